@@ -305,32 +305,39 @@ fn main() {
                 env::attach(&mut *w.env as *mut env::ExecEnv);
                 let mval: u8 = a.get("m").map(|s| s.parse().unwrap()).unwrap_or(1);
                 let pi: i64 = a.get("prefix").map(|s| s.parse().unwrap()).unwrap_or(-1);
-                let t = model.isolation_child(&mut *w.env as *mut env::ExecEnv, mval, pi);
-                let s: Vec<String> = t.iter().map(|x| format!("{:x}", x)).collect();
-                println!("{}", s.join(","));
+                let only: Option<usize> = a.get("probe").map(|s| s.parse().unwrap());
+                // one line per finished probe history, so that the parent sees how far a dying child got
+                model.isolation_child(&mut *w.env as *mut env::ExecEnv, mval, pi, only, &mut |x| println!("{:x}", x));
                 return;
             }
             let exe = std::env::current_exe().unwrap();
             let tier = if thorough { "thorough" } else { "quick" };
-            let child = |m: u8, pi: i64| -> Vec<String> {
-                let o = std::process::Command::new(&exe).args(["isolation-child", "--m", &m.to_string(), "--prefix", &pi.to_string(), "--tier", tier]).output().expect("spawn child");
-                if !o.status.success() {
-                    return vec![format!("CHILD-DIED status {:?}", o.status.code())];
+            // a child prints one trace per line; a child that dies leaves fewer lines than probes
+            let child = |m: u8, pi: i64, only: Option<usize>| -> Vec<String> {
+                let mut c = std::process::Command::new(&exe);
+                c.args(["isolation-child", "--m", &m.to_string(), "--prefix", &pi.to_string(), "--tier", tier]);
+                if let Some(q) = only {
+                    c.args(["--probe", &q.to_string()]);
                 }
-                String::from_utf8_lossy(&o.stdout).trim().split(',').map(|s| s.to_string()).collect()
+                let o = c.output().expect("spawn child");
+                String::from_utf8_lossy(&o.stdout).lines().map(|s| s.trim().to_string()).filter(|s| !s.is_empty()).collect()
             };
             let prefixes = pair::prefix_histories(thorough);
             let probes = pair::probe_histories(thorough);
             if args[1] == "replay-isolation" {
                 let hex = a.get("hex").expect("--hex");
                 let parts: Vec<i64> = hex.split('.').map(|x| i64::from_str_radix(x, 16).unwrap()).collect();
-                let (m, pi, qi) = (parts[0] as u8, parts[1], parts[2] as usize);
-                let desc = serde_json::json!({"min_align": m, "earlier_history_on_another_arena": pair::describe_steps(&prefixes[pi as usize]), "history_of_the_observed_arena": pair::describe_steps(&probes[qi])});
+                let (m, pi, qi) = (parts[0] as u8, parts[1] - 1, parts[2] as usize);
+                let desc = serde_json::json!({"min_align": m, "earlier_history_on_another_arena": if pi < 0 { vec!["(nothing)".to_string()] } else { pair::describe_steps(&prefixes[pi as usize]) }, "then_probe_histories_before_this_one": qi, "history_of_the_observed_arena": pair::describe_steps(&probes[qi])});
                 println!("{}", serde_json::to_string(&serde_json::json!({"replaying": desc})).unwrap());
-                let base = child(m, -1);
-                let with = child(m, pi);
-                let differs = base.get(qi) != with.get(qi);
-                let viols = if differs { vec![serde_json::json!({"property": "C20", "clause": "trace_depends_on_earlier_arenas_in_process", "key": "trace_depends_on_earlier_arenas_in_process", "detail": "reproduced in fresh processes"})] } else { vec![] };
+                let base = child(m, -1, Some(qi));
+                let with = child(m, pi, None);
+                if base.len() != 1 {
+                    eprintln!("MACHINERY: the probe history alone does not complete in a fresh process");
+                    std::process::exit(2);
+                }
+                let differs = Some(&base[0]) != with.get(qi);
+                let viols = if differs { vec![serde_json::json!({"property": "C20", "clause": "trace_depends_on_earlier_arenas_in_process", "key": if with.len() <= qi { "trace_depends_on_earlier_arenas_in_process/child_died" } else { "trace_depends_on_earlier_arenas_in_process" }, "detail": "reproduced in fresh processes"})] } else { vec![] };
                 println!("{}", serde_json::to_string_pretty(&serde_json::json!({"history": desc, "trace": [], "violations": viols})).unwrap());
                 return;
             }
@@ -338,33 +345,38 @@ fn main() {
             let mut viols: Vec<serde_json::Value> = Vec::new();
             let mut execs = 0u64;
             for &m in &ms {
-                let base = child(m, -1);
+                // reference: every probe history alone in its own fresh process
+                let base: Vec<String> = std::thread::scope(|sc| {
+                    let hs: Vec<_> = (0..threads).map(|t| { let child = &child; let n = probes.len(); sc.spawn(move || (0..n).filter(|i| i % threads == t).map(|q| (q, child(m, -1, Some(q)))).collect::<Vec<_>>()) }).collect();
+                    let mut all: Vec<(usize, Vec<String>)> = hs.into_iter().flat_map(|h| h.join().unwrap()).collect();
+                    all.sort();
+                    all.into_iter().map(|(q, t)| if t.len() == 1 { t[0].clone() } else { eprintln!("MACHINERY: probe history {:?} alone does not complete in a fresh process", pair::describe_steps(&probes[q])); std::process::exit(2) }).collect()
+                });
                 execs += base.len() as u64;
                 let results: Vec<(usize, Vec<String>)> = std::thread::scope(|sc| {
-                    let chunks: Vec<Vec<usize>> = (0..threads).map(|t| (0..prefixes.len()).filter(|i| i % threads == t).collect()).collect();
-                    let hs: Vec<_> = chunks.into_iter().map(|c| { let child = &child; sc.spawn(move || c.into_iter().map(|i| (i, child(m, i as i64))).collect::<Vec<_>>()) }).collect();
+                    let chunks: Vec<Vec<i64>> = (0..threads).map(|t| (-1..prefixes.len() as i64).filter(|i| (i + 1) as usize % threads == t).collect()).collect();
+                    let hs: Vec<_> = chunks.into_iter().map(|c| { let child = &child; sc.spawn(move || c.into_iter().map(|i| ((i + 1) as usize, child(m, i, None))).collect::<Vec<_>>()) }).collect();
                     hs.into_iter().flat_map(|h| h.join().unwrap()).collect()
                 });
-                for (i, t) in results {
+                for (i1, t) in results {
+                    // i1 = prefix index + 1; 0 = no prefix (the probe histories still follow each other in one process)
+                    let pi = i1 as i64 - 1;
+                    let pre = if pi < 0 { vec!["(nothing)".to_string()] } else { pair::describe_steps(&prefixes[pi as usize]) };
                     execs += t.len() as u64 + 1;
-                    if t.len() != base.len() {
+                    let qi = (0..base.len()).find(|&q| t.get(q) != Some(&base[q]));
+                    if let Some(qi) = qi {
                         if viols.len() < 5 {
-                            viols.push(serde_json::json!({"property": "C20", "clause": "trace_depends_on_earlier_arenas_in_process", "key": "trace_depends_on_earlier_arenas_in_process/child_died", "detail": format!("child with prefix {:?} did not complete: {:?}", pair::describe_steps(&prefixes[i]), t.first()), "hist_hex": format!("{:x}.{:x}.0", m, i), "history": {"earlier_history_on_another_arena": pair::describe_steps(&prefixes[i])}}));
-                        }
-                        continue;
-                    }
-                    if let Some(qi) = (0..t.len()).find(|&q| t[q] != base[q]) {
-                        if viols.len() < 5 {
-                            viols.push(serde_json::json!({"property": "C20", "clause": "trace_depends_on_earlier_arenas_in_process", "key": "trace_depends_on_earlier_arenas_in_process",
-                                "detail": format!("MIN_ALIGN {m}: the results/placement/accounting of an arena running {:?} differ depending on whether another arena earlier ran {:?} in the same process", pair::describe_steps(&probes[qi]), pair::describe_steps(&prefixes[i])),
-                                "hist_hex": format!("{:x}.{:x}.{:x}", m, i, qi), "history": {"earlier_history_on_another_arena": pair::describe_steps(&prefixes[i]), "history_of_the_observed_arena": pair::describe_steps(&probes[qi])}}));
+                            let died = t.len() <= qi;
+                            viols.push(serde_json::json!({"property": "C20", "clause": "trace_depends_on_earlier_arenas_in_process", "key": if died { "trace_depends_on_earlier_arenas_in_process/child_died" } else { "trace_depends_on_earlier_arenas_in_process" },
+                                "detail": format!("MIN_ALIGN {m}: an arena running {:?} {} in a process where other arenas ran before it (first {:?}, then {} shorter probe histories, each on its own arena that was dropped afterwards), but alone in a fresh process it gives a different trace (results, placement, accounting, allocator traffic)", pair::describe_steps(&probes[qi]), if died { "brings the process down (the controlled allocator recycles the memory of arenas that are gone, so this needs state that outlived an earlier arena)" } else { "behaves differently" }, pre, qi),
+                                "hist_hex": format!("{:x}.{:x}.{:x}", m, pi + 1, qi), "history": {"earlier_history_on_another_arena": pre, "history_of_the_observed_arena": pair::describe_steps(&probes[qi])}}));
                         }
                     }
                 }
             }
             let j = serde_json::json!({
                 "states": (prefixes.len() * probes.len() * ms.len()) as u64, "transitions": execs, "executions": execs, "distinct_outcomes": probes.len() as u64, "depth_completed": 0, "level_sizes": [prefixes.len(), probes.len()], "caps_hit": [],
-                "coverage_events": {"prefix_histories": prefixes.len(), "probe_histories": probes.len(), "fresh_processes": (prefixes.len() + 1) * ms.len()}, "violations": viols, "violations_total": viols.len(), "skipped_crash": 0,
+                "coverage_events": {"prefix_histories": prefixes.len(), "probe_histories": probes.len(), "fresh_processes": (prefixes.len() + 1 + probes.len()) * ms.len()}, "violations": viols, "violations_total": viols.len(), "skipped_crash": 0,
                 "samples": [{"earlier_history_on_another_arena": pair::describe_steps(&prefixes[prefixes.len() / 2]), "history_of_the_observed_arena": pair::describe_steps(&probes[probes.len() / 2])}], "wall_s": t0.elapsed().as_secs_f64(),
                 "extra": {"engine": "isolation (fresh process per prefix history)"},
             });
